@@ -635,6 +635,7 @@ type c12Env struct {
 	unarrived   map[int]c12Want // issued, not yet at the store
 	forced      map[int]bool    // stamps of puts that were let through while an op was blocked
 	poisonLater map[int]int     // fault plan for tickets that have not reached the store yet
+	asc         bool            // current allocation direction
 	used        map[int]bool
 	t0          time.Time
 }
@@ -952,6 +953,7 @@ func (e *c12Env) crash(preserved bool, fail int, pre string, dying chan string) 
 	e.sb.failAdd = fail
 	v4, v6 := c12Profiles(e.n4, e.n6, e.kpd)
 	allocator.InitGlobalRegistry(v4, v6)
+	e.asc = true
 	h := &c12Handle{f: e.fake, epoch: e.fake.epoch}
 	e.p.newComponent(h)
 	e.log.take()
@@ -1277,6 +1279,12 @@ func (e *c12Env) runCase(f []string) string {
 				fail, _ = strconv.Atoi(a[2])
 			}
 			out = append(out, e.crash(a[1] == "p", fail, "", nil))
+		case "flip":
+			// the allocation direction flips (pkg/ha: this node is not the election winner): every pool rebuilds
+			// its free list; what is leased or reserved must stay off it
+			e.asc = !e.asc
+			allocator.GetGlobalRegistry().SetAllocDirection(e.asc)
+			out = append(out, "flip")
 		case "relstop":
 			// stop in the middle of the release of session i: relstop:<i>:<p|e>:<d|n>  (d: the write that was at
 			// the store completes before the stop, the Delete queued behind it does not)
@@ -1358,7 +1366,7 @@ func c12Run(t *testing.T, mk func(e *c12Env) c12Proto, dpPrefix string, ns strin
 			}()
 			lg := &c12Log{}
 			e := &c12Env{log: lg, fake: &c12Fake{data: map[string][]byte{}, log: lg, opGID: -2}, sb: newC12SB(lg, dpPrefix),
-				bus: &c12Bus{log: lg}, cache: newC12Cache(), tickets: map[int]*c12Put{}, unarrived: map[int]c12Want{}, forced: map[int]bool{}, poisonLater: map[int]int{}, used: map[int]bool{}, t0: time.Now()}
+				bus: &c12Bus{log: lg}, cache: newC12Cache(), tickets: map[int]*c12Put{}, unarrived: map[int]c12Want{}, forced: map[int]bool{}, poisonLater: map[int]int{}, asc: true, used: map[int]bool{}, t0: time.Now()}
 			e.ns = ns
 			e.n4, _ = strconv.Atoi(f[1])
 			e.n6, _ = strconv.Atoi(f[2])
